@@ -192,7 +192,46 @@ def check_case(prog, info, x, driver, part, record=True):
     return None
 
 
-def probe_merged(prog, info, sels, x, driver, part, merged, names):
+def check_raising_listener(prog, info, x, driver, part, record=True):
+    """A listener that raises on a begin event (#enter, #loop_v): the exception passes through the
+    activation like any other, so the brackets still close (#endloop, #error, #exit)."""
+    names = set(info["params"] + info["locals"]) - set(info["declared"])
+    for begin in ["#enter"] + [f"#loop_{lv}" for lv in info["loopvars"]]:
+        tw = C.get_world(prog, info, "twin")
+        state = {"done": False}
+
+        def meta(name, value, begin=begin, tw=tw, state=state):
+            if name == begin and not state["done"]:
+                state["done"] = True
+                tw.ns["TRACE"].append(("meta", name, True, None, None, {}))
+                raise tw.ns["ERR"]("listener")
+            return value
+
+        tobs, trace = C.twin_run(prog, info, x, driver, subst={"meta": meta})
+        if not state["done"]:
+            continue
+        exp = expected_stream(trace, names)
+        merged = []
+        obs, ok = probe_merged(prog, info, selectors(info), x, driver, part, merged, names, raiser=begin)
+        if record:
+            part["cases"] += 1
+            part["evaluations"] += 1
+            part["steps"] += len(exp)
+            part["nontrivial"] += 1
+            part["outcomes"]["raising-listener:" + begin.split("_")[0]] += 1
+        if ok is None:
+            return ("activation", f"activation failed: {obs[1]}: {obs[2]}")
+        if obs != tobs:
+            return ("raising-listener", f"a listener raising at {begin}: run differs from the reference: %s %s" % P.first_difference(tobs, obs))
+        got = [e for e in merged if not (e[0] == "#error" and isinstance(e[1], tuple) and e[1][:2] == ("exc", "GeneratorExit"))]
+        multi = len(info["loopvars"]) > 1
+        for pe, pg in zip(normalise(exp, multi), normalise(got, multi)):
+            if pe != pg:
+                return ("raising-listener", f"a listener raising at {begin}: expected {pe!r}, delivered {pg!r}")
+    return None
+
+
+def probe_merged(prog, info, sels, x, driver, part, merged, names, raiser=None):
     """Like C.probe_run but all probes append to one list in delivery order (raw mode)."""
     from ptera import probing
     from pv.core import world
@@ -218,6 +257,18 @@ def probe_merged(prog, info, sels, x, driver, part, merged, names):
         for s in sels:
             p = probing(s, env={"f": w.f}, raw=True)
             p.subscribe(on_var if s.endswith("$x") else on_meta)
+            p.__enter__()
+            probes.append(p)
+        if raiser:
+            fired = []
+
+            def boom(ev):
+                if not fired:
+                    fired.append(1)
+                    raise w.ns["ERR"]("listener")
+
+            p = probing(f"f > {raiser}", env={"f": w.f})
+            p.subscribe(boom)
             p.__enter__()
             probes.append(p)
     except BaseException as e:
@@ -253,6 +304,8 @@ def check_program(prog, tier, part, setname="gen"):
     for x in (0, 1, 2):
         for driver in drivers:
             bad = check_case(prog, info, x, driver, part)
+            if bad is None and x == 1 and (driver is None or driver == drivers[0]):
+                bad = check_raising_listener(prog, info, x, driver, part)
             if bad:
                 kind, detail = bad
                 case = {"src": prog.src, "forms": list(prog.forms), "x": x, "driver": driver}
@@ -267,6 +320,8 @@ def _still(prog, x, driver):
     info = C.analyse(prog)
     part = new_partial()
     r = check_case(prog, info, x, driver, part, record=False) is not None
+    if not r and x == 1:
+        r = check_raising_listener(prog, info, x, driver, part, record=False) is not None
     C.drop_worlds(prog)
     return r
 
@@ -286,6 +341,8 @@ def replay(case):
     part = new_partial()
     drv = tuple(case["driver"]) if case["driver"] else None
     bad = check_case(prog, info, case["x"], drv, part)
+    if bad is None and case["x"] == 1:
+        bad = check_raising_listener(prog, info, case["x"], drv, part)
     C.drop_worlds(prog)
     if bad:
         return True, bad[1]
